@@ -254,7 +254,7 @@ end
 /-- the tool's own schemas, advertised, are accepted -/
 theorem pubClause_own (ownI : Schema) (ownO : Option Schema) (hi : SKeyed ownI) (ho : ∀ s, ownO = some s → SKeyed s) :
     pubClause ownI ownO (some ownI) (some ownO) = none := by
-  unfold pubClause
+  unfold pubClause pubInOk pubOutOk
   cases ownO with
   | none => simp [sameSchema_refl ownI hi]
   | some s => simp [sameSchema_refl ownI hi, sameSchema_refl s (ho s rfl)]
